@@ -11,7 +11,9 @@ open Btc Gen.Miniscript
     environment. -/
 def EnvOK (E : EvalEnv) (ctx : Ctx) (env : SatEnv) : Prop :=
   (∀ k σ, offered ctx env k = some σ → E.sigOK k σ = true) ∧
-  (∀ h d p, preimageOf env h d = some p → E.hashF h p = d)
+  (∀ h d p, preimageOf env h d = some p → E.hashF h p = d) ∧
+  (∀ n, olderMet env n = true → E.csvOK (encodeNum n) = true) ∧
+  (∀ n, afterMet env n = true → E.cltvOK (encodeNum n) = true)
 
 /-- no digest of the expression is the hash of 32 zero bytes (the satisfier's dissatisfaction of
     a hash fragment). -/
@@ -102,11 +104,27 @@ theorem satInv (hE : EnvOK E ctx env) : ∀ (n : Ms), inS1 n = true → zeroOK E
       | some p =>
         simp [hp, element] at h
         subst h
-        exact .hash hk d p (preimageOf_len hp) (hE.2 hk d p hp)
+        exact .hash hk d p (preimageOf_len hp) (hE.2.1 hk d p hp)
     · intro w h
       simp [inputs, zero32Push] at h
       subst h
       exact .hash hk d _ (by simp) hz
+  | .older n, _, _ => by
+    constructor
+    · intro w h
+      simp only [inputs] at h
+      cases hm : olderMet env n with
+      | false => simp [hm, noWitness] at h
+      | true => simp [hm, noPushes] at h; subst h; exact .older n (hE.2.2.1 n hm)
+    · intro w h; simp [inputs, noWitness] at h
+  | .after n, _, _ => by
+    constructor
+    · intro w h
+      simp only [inputs] at h
+      cases hm : afterMet env n with
+      | false => simp [hm, noWitness] at h
+      | true => simp [hm, noPushes] at h; subst h; exact .after n (hE.2.2.2 n hm)
+    · intro w h; simp [inputs, noWitness] at h
   | .wrap w x, hin, hz => by
     simp only [inS1, Bool.and_eq_true, Bool.or_eq_true, beq_iff_eq] at hin
     simp only [zeroOK] at hz
@@ -247,8 +265,7 @@ theorem satInv (hE : EnvOK E ctx env) : ∀ (n : Ms), inS1 n = true → zeroOK E
         simpa using Dsat.andor_y x y z _ _ (xs t ht) (yd s hs)
       · obtain ⟨s, t, hs, ht, rfl⟩ := both_some h
         simpa using Dsat.andor x y z _ _ (xd t ht) (zd s hs)
-  | .older _, h, _ | .after _, h, _ | .multi _ _, h, _ | .multi_a _ _, h, _
-  | .thresh _ _ _, h, _ => by simp [inS1] at h
+  | .multi _ _, h, _ | .multi_a _ _, h, _ | .thresh _ _ _, h, _ => by simp [inS1] at h
 
 /-- `satisfy ⊆ Sat`: the witness the satisfier returns, read top first, is a listed satisfaction. -/
 theorem satisfy_in_Sat (hE : EnvOK E ctx env) (n : Ms) (hin : inS1 n = true)
